@@ -154,11 +154,14 @@ func (in *Interp) raise(v Value) {
 			th.prot[n-1].isX = false // an error inside the handler is not handled again
 			th.cBoundary++
 			var res []Value
+			failed := false
 			func() {
 				defer func() {
 					if r := recover(); r != nil {
 						if _, ok := r.(*LuaError); ok {
-							unspecified("error inside an xpcall message handler")
+							// the handler failed too: xpcall returns false and a value no property fixes
+							failed = true
+							return
 						}
 						panic(r)
 					}
@@ -169,6 +172,9 @@ func (in *Interp) raise(v Value) {
 			var hv Value
 			if len(res) > 0 {
 				hv = res[0]
+			}
+			if failed {
+				hv = &OStr{Kind: "any"}
 			}
 			panic(&LuaError{Val: hv, Handled: true})
 		}
